@@ -143,7 +143,18 @@ func c09Functions() (fns []*c09Fn, denied []string) {
 			if fi.Doc != nil {
 				f.Kind = string(fi.Doc.Kind)
 				f.Doc = len(fi.Doc.Args)
+				section := ""
 				for _, da := range fi.Doc.Args {
+					switch {
+					case strings.HasPrefix(da.Name, "&"):
+						section = da.Name
+					case section == "":
+						f.Req++
+					case section == slip.AmpOptional:
+						f.Opt++
+					case section == slip.AmpKey:
+						f.Keys = append(f.Keys, strings.TrimPrefix(da.Name, ":"))
+					}
 					switch {
 					case da.Name == slip.AmpRest || da.Name == slip.AmpBody || da.Name == slip.AmpKey || da.Name == slip.AmpAllowOtherKeys:
 						f.Max = -1
